@@ -23,7 +23,7 @@ META = {
         "thorough": "all histories of length <=5 (66 429) x every batching x 6 policy pairs; random histories up to length 40",
     },
     "assumptions": ["R-ENTRY: value = min/max of all offered values; admissible tags per retention policy", "tags are truthy objects (the code ignores falsy tags by design)"],
-    "timeout": {"quick": 600, "thorough": 3600},
+    "timeout": {"quick": 420, "thorough": 3600},
 }
 
 VALUES = (0, 1, 2)
